@@ -188,6 +188,24 @@ static void searches(const unsigned char *keys, size_t n, size_t sz, int sorted)
             record();
         }
     }
+    /* the probe may be one of the array's own elements (a caller asking "where is the first element equal to this one?") */
+    for (i = 0; i < n && !failed; i++) {
+        static volatile ssize_t r; ssize_t first = -1; size_t j;
+        for (j = 0; j < n; j++) if (keys[j] == keys[i]) { first = (ssize_t)j; break; }
+        cases++; cmp_calls = 0; cmp_limit = 64 + 4 * n;
+        describe_case("findown", keys, n, sz, (int)i, 0, 0);
+        SHIM_CALL(ab, r = cstl_raw_array_find(arr, n, sz, arr + i * sz, cmp_key, &cmp_calls));
+        if (ab) fail("find with the array's own element %zu as probe: %s", i, ab == 3 ? "does not terminate" : "abort");
+        else if (r != first) fail("find with the array's own element %zu as probe returned %zd, the first equal element is at %zd", i, (ssize_t)r, first);
+        record();
+        if (sorted) {
+            cases++; cmp_calls = 0;
+            describe_case("searchown", keys, n, sz, (int)i, 0, 0);
+            SHIM_CALL(ab, r = cstl_raw_array_search(arr, n, sz, arr + i * sz, cmp_key, &cmp_calls));
+            if (ab || r < 0 || (size_t)r >= n || keys[r] != keys[i]) fail("binary search with the array's own element %zu as probe returned %zd", i, (ssize_t)r);
+            record();
+        }
+    }
     /* reverse: exact mirror, raw and through the vector */
     cases++;
     describe_case("reverse", keys, n, sz, 0, 0, 1);
